@@ -4,6 +4,7 @@ import Pyunicorn.Lemmas.VisibilityFloat
 import Pyunicorn.Lemmas.VisibilityF32
 import Pyunicorn.Lemmas.VisibilityDist
 import Pyunicorn.Lemmas.VisibilityScale
+import Pyunicorn.Lemmas.VisibilityBetwKernel
 import Pyunicorn.Generated.ArithC14
 /-!
 # C14 — visibility graphs realise the geometric visibility criterion
@@ -968,8 +969,11 @@ theorem model_uses_source_expressions (N : Nat) (A : List (List Bool)) (i d : Na
    by C03's kernel model (`retBetw`, `advBetw`, `transBetw` in `Model/VisibilityBetw.lean`);
    the theorems are about the pair-dependency *definition* `betwSpec` (shortest-path counts
    `sigma` = walks with `pathLen` links).  The driver evaluates both and the harness compares
-   both with the implementation on every case (kernel model = definition is **not proved** —
-   that is Brandes' theorem for C03's kernel; it is checked per case).
+   both with the implementation on every case (round 3: kernel model = definition was not
+   proved, only checked per case; **round 5b: proved** for every symmetric matrix with C03's
+   kernel theorem — `betweenness_kernel_eq_count`, `visibility_betweenness_kernel_eq_count`,
+   section "Round 5b" at the end of this file; right-hand side = the count over enumerated
+   shortest paths).
 2. the float kernel under a monotone rounding with exact differences is a subgraph of the
    exact graph; the horizontal graph depends only on the order of the samples.
 3. loop bounds of the five Cython kernels and the index arrays of the three betweenness
@@ -1618,5 +1622,120 @@ theorem class_f32_pow2_invariant_decided (x : List Val) (tm : Option (List Rat))
 
 example : noUflConvB [some (1 / 3), some (1 / 10), some (2 / 3), none, some (1 / 5)]
     (some [0, 1 / 10, 1, 2, 3]) (-60) 30 = true := by decide +kernel
+
+/-! # Round 5b
+
+**The kernel model of the betweenness-type measures equals the definition — proved, no longer a
+per-case comparison.**  Round 3 modelled `retarded_betweenness`, `advanced_betweenness`,
+`trans_betweenness` by property C03's line-by-line model of the Cython kernel `_nsi_betweenness`
+(`retBetw`, `advBetw`, `transBetw`) and left "kernel model = pair-dependency definition" (Brandes'
+theorem for that model) to the driver and the harness, case by case.  C03's round 5 proved it for
+every undirected network, positive node weights and targets `< N`
+(`NetBetw.nsiBetweenness_eq_def_full`, `Lemmas/NetBetwKernel.lean`).  The three hypotheses are
+what the real code enforces for a `VisibilityGraph`, and they are *theorems* here
+(`Lemmas/VisibilityBetwKernel.lean`): the adjacency matrix of a write log is symmetric
+(`adjFn_adjMat_symm`), the node weights are all 1, `np.arange(i)` / `np.arange(i+1, N)` stay below
+`N`.  So the statements below have no hypothesis about the kernel left.
+
+The right-hand side is C03's `NetBetw.interregionalCount`:
+`Σ_{t ∈ targets, t ≠ i} Σ_{s ∈ sources, s ≠ i} #(shortest t–s paths through i) / #(shortest t–s paths)`
+with both numbers obtained by *enumerating* the shortest paths as node lists (`shortestPaths`;
+distances: the BFS `Net.dist` = `pathLen`, `pathLen_is_bfs`).  (The walk-count form `betwSpec` of
+round 3, in which the reversal theorems are stated, is a second writing of the same definition;
+`betwSpec = interregionalCount` — the concatenation lemma `σ_ts(l) = σ_tl σ_ls` — is compared by the
+driver on every sampled case and remains unproved, see design/C14.md.) -/
+
+/-- **`self.nsi_betweenness(sources=S, targets=T)[i]` of a unit-weight undirected network**, as the
+three methods call it: the kernel model (forward BFS with the flat predecessor arrays, backward
+sweep, `excess_to_j`, division by `w`) returns the published count over enumerated shortest paths —
+every symmetric matrix, every source list, every target list below `N`. -/
+theorem nsi_betweenness_kernel_eq_count (N : Nat) (A : List (List Bool))
+    (hsym : ∀ x y, Mat.at A x y = Mat.at A y x) (S T : List Nat) (hT : ∀ t, t ∈ T → t < N)
+    (i : Nat) (hi : i < N) :
+    nsiBetwAt N A S T i
+      = NetBetw.interregionalCount N (adjFn A) (Net.dist N (adjFn A)) S T i :=
+  nsiBetwAt_eq_count N A hsym S T hT i hi
+
+/-- **the three methods on any symmetric matrix**: `retarded_betweenness()[i]` counts the shortest
+paths between two *past* samples through `i`, `advanced_betweenness()[i]` between two *future*
+samples, `trans_betweenness()[i]` from a future target to a past source — the index arrays are in
+range by construction, no hypothesis on them -/
+theorem betweenness_kernel_eq_count (N : Nat) (A : List (List Bool))
+    (hsym : ∀ x y, Mat.at A x y = Mat.at A y x) (i : Nat) (hi : i < N) :
+    retBetw N A i = NetBetw.interregionalCount N (adjFn A) (Net.dist N (adjFn A))
+        (pastIdx i) (pastIdx i) i ∧
+    advBetw N A i = NetBetw.interregionalCount N (adjFn A) (Net.dist N (adjFn A))
+        (futureIdx N i) (futureIdx N i) i ∧
+    transBetw N A i = NetBetw.interregionalCount N (adjFn A) (Net.dist N (adjFn A))
+        (pastIdx i) (futureIdx N i) i :=
+  ⟨nsiBetwAt_eq_count N A hsym _ _ (pastIdx_lt N i hi) i hi,
+   nsiBetwAt_eq_count N A hsym _ _ (futureIdx_lt N i) i hi,
+   nsiBetwAt_eq_count N A hsym _ _ (futureIdx_lt N i) i hi⟩
+
+/-- **unconditional for the matrix of any write log** (what every constructor path stores:
+`A[i, j] = A[j, i] = 1`): symmetry is a theorem, so nothing is assumed -/
+theorem visibility_betweenness_kernel_eq_count (N : Nat) (log : List (Nat × Nat)) (i : Nat)
+    (hi : i < N) :
+    let A := adjMat N log
+    retBetw N A i = NetBetw.interregionalCount N (adjFn A) (Net.dist N (adjFn A))
+        (pastIdx i) (pastIdx i) i ∧
+    advBetw N A i = NetBetw.interregionalCount N (adjFn A) (Net.dist N (adjFn A))
+        (futureIdx N i) (futureIdx N i) i ∧
+    transBetw N A i = NetBetw.interregionalCount N (adjFn A) (Net.dist N (adjFn A))
+        (pastIdx i) (futureIdx N i) i :=
+  betweenness_kernel_eq_count N (adjMat N log) (adjFn_adjMat_symm N log) i hi
+
+/-- composed for `VisibilityGraph(x, t, missing_values=True)`, increasing timings: the constructor
+succeeds and on its matrix the three methods return the counts -/
+theorem class_betweenness_is_count_nvg (x : List Val) (t : List Rat)
+    (ht : t.length = x.length) (inc : ∀ a b, a < b → b < x.length → tAt t a < tAt t b) :
+    ∃ log, classLog x (some t) true false = .ok log ∧
+      let N := x.length
+      let A := adjMat N log
+      ∀ i, i < N →
+        retBetw N A i = NetBetw.interregionalCount N (adjFn A) (Net.dist N (adjFn A))
+            (pastIdx i) (pastIdx i) i ∧
+        advBetw N A i = NetBetw.interregionalCount N (adjFn A) (Net.dist N (adjFn A))
+            (futureIdx N i) (futureIdx N i) i ∧
+        transBetw N A i = NetBetw.interregionalCount N (adjFn A) (Net.dist N (adjFn A))
+            (pastIdx i) (futureIdx N i) i := by
+  have g : Good x t (some (nanMask x)) x.length :=
+    ⟨Nat.le_refl _, by omega, by intro m hm; cases hm; simp [nanMask], inc⟩
+  obtain ⟨log, h1, _⟩ := nvg_mv_iff x t x.length g
+  exact ⟨log, by rw [class_nvg_missing]; exact h1,
+    fun i hi => visibility_betweenness_kernel_eq_count _ log i hi⟩
+
+/-- the same for `VisibilityGraph(x, horizontal=True, missing_values=True)`, any series -/
+theorem class_betweenness_is_count_hvg (x : List Val) (tm : Option (List Rat)) :
+    ∃ log, classLog x tm true true = .ok log ∧
+      let N := x.length
+      let A := adjMat N log
+      ∀ i, i < N →
+        retBetw N A i = NetBetw.interregionalCount N (adjFn A) (Net.dist N (adjFn A))
+            (pastIdx i) (pastIdx i) i ∧
+        advBetw N A i = NetBetw.interregionalCount N (adjFn A) (Net.dist N (adjFn A))
+            (futureIdx N i) (futureIdx N i) i ∧
+        transBetw N A i = NetBetw.interregionalCount N (adjFn A) (Net.dist N (adjFn A))
+            (pastIdx i) (futureIdx N i) i := by
+  obtain ⟨log, h1, _⟩ := hvg_missing_iff x tm
+  exact ⟨log, h1, fun i hi => visibility_betweenness_kernel_eq_count _ log i hi⟩
+
+/-! non-vacuity: on the 4-cycle `0–1–2–3–0` two shortest paths join the future sample 2 to the past
+sample 0, one of them through sample 1: count `1/2`, and the kernel model returns `1/2`; on the
+path `0–1–2` the middle sample carries the only path. -/
+example : NetBetw.interregionalCount 4 (adjFn (adjMat 4 [(0, 1), (1, 2), (2, 3), (0, 3)]))
+    (Net.dist 4 (adjFn (adjMat 4 [(0, 1), (1, 2), (2, 3), (0, 3)]))) (pastIdx 1) (futureIdx 4 1) 1
+      = 1 / 2 := by decide +kernel
+example : transBetw 4 (adjMat 4 [(0, 1), (1, 2), (2, 3), (0, 3)]) 1 = 1 / 2 := by decide +kernel
+example : NetBetw.interregionalCount 3 (adjFn (adjMat 3 [(0, 1), (1, 2)]))
+    (Net.dist 3 (adjFn (adjMat 3 [(0, 1), (1, 2)]))) (pastIdx 1) (futureIdx 3 1) 1 = 1 := by
+  decide +kernel
+/-- the enumeration behind the count -/
+example : NetBetw.shortestPaths 4 (adjFn (adjMat 4 [(0, 1), (1, 2), (2, 3), (0, 3)]))
+    (Net.dist 4 (adjFn (adjMat 4 [(0, 1), (1, 2), (2, 3), (0, 3)]))) 2 0 = [[2, 1, 0], [2, 3, 0]] := by
+  decide +kernel
+/-- symmetry is needed by the kernel proof and is a property of the data, not of every matrix -/
+example : ¬ ∀ x y, Mat.at [[false, true], [false, false]] x y = Mat.at [[false, true], [false, false]] y x := by
+  intro h; exact absurd (h 0 1) (by decide)
 
 end Pyunicorn.Visibility
